@@ -16,7 +16,7 @@ RULE = ("tables of 1..3 autosomes, each independently flat (100..600 bins) or a 
         "non-trivial (>= 100 noisy bins).")
 ASSUMPTIONS = [
     "statistical envelope: asserted on every generated chromosome because the unchanged tree shows 0 failures in the sweeps recorded in DESIGN.md; a red run is a regression only relative to that base rate",
-    "chromosomes are autosomes (hmm-germline fits its noise model on autosomes); no gap reaches 100 kb, so no arm split occurs and 'per arm' = per chromosome",
+    "chromosomes are autosomes (hmm-germline fits its noise model on autosomes); gaps stay below 10 kb except for one hole of 1-3 Mb clearly inside the middle part of some flat chromosomes, which then have two arms",
     "segment mean = the segment's log2 column; breakpoint position = cumulative probes of the first segment (no bin is filtered: weights > 0, no null bins; the default outlier filter may drop a bin, which moves the count by at most that many bins and is inside the 5-bin tolerance)",
     "hmm and hmm-tumor are outside the claim and not driven",
 ]
@@ -44,10 +44,14 @@ def post_truth(run, snap, res, args, kwargs):
         wit = {"method": method, "truth": t, "segments": segs, "noise_sd": t["sd"], "diagnosis": diag,
                "log2": t.get("log2_head")}
         if t["kind"] == "flat":
-            if len(segs) != 1:
-                run.violate(MON, f"{method}-flat-profile-segmented", f"{t['chrom']}: flat profile of {t['n']} bins (sd {t['sd']:.3f}) gave {len(segs)} segments", wit)
+            arms = t.get("arms") or [t["n"]]
+            if len(segs) != len(arms):
+                run.violate(MON, f"{method}-flat-profile-segmented" if len(segs) > len(arms) else f"{method}-arms-fused",
+                            f"{t['chrom']}: flat profile of {t['n']} bins (sd {t['sd']:.3f}) in {len(arms)} arm(s) gave {len(segs)} segments", wit)
+            elif len(arms) == 2 and abs(segs[0][3] - arms[0]) > 5:
+                run.violate(MON, f"{method}-arm-boundary-misplaced", f"{t['chrom']}: first arm holds {arms[0]} bins, first segment {segs[0][3]}", wit)
             else:
-                run.held(MON, f"{method}:flat")
+                run.held(MON, f"{method}:flat" + (":two-arms" if len(arms) == 2 else ""))
             continue
         cls = f"{method}:step:{t['left']:+.3f}->{t['right']:+.3f}"
         if len(segs) != 2:
@@ -110,7 +114,13 @@ def gen_profile(rng, method, i):
         if rng.random() < 0.35:
             n = int(rng.integers(100, 601))
             sig = np.zeros(n)
-            t = {"chrom": chrom, "kind": "flat", "n": n, "sd": sd}
+            t = {"chrom": chrom, "kind": "flat", "n": n, "sd": sd, "arms": [n]}
+            margin = max(50, int(round(0.1 * n)))
+            if n > 2 * margin + 40 and rng.random() < 0.4:
+                # a centromere-sized hole clearly inside the middle part: two arms, one segment each
+                cut = int(rng.integers(margin + 10, n - margin - 10))
+                t["arms"] = [cut, n - cut]
+                t["hole_before_bin"] = cut
         else:
             nl, nr = int(rng.integers(100, 401)), int(rng.integers(100, 401))
             if rng.random() < 0.15:
@@ -133,6 +143,8 @@ def gen_profile(rng, method, i):
         starts, ends = [], []
         for k in range(n):
             pos += int(gaps[k])
+            if t.get("hole_before_bin") == k:
+                pos += int(rng.integers(1_000_000, 3_000_000))
             starts.append(pos)
             pos += int(sizes[k])
             ends.append(pos)
@@ -172,7 +184,7 @@ def case_profile(run, i):
 
 
 WORKLOADS = {"profile": (_n, case_profile)}
-_Q = {MON + "|held": 600, "class:haar:flat": 10, "class:hmm-germline:flat": 10,
+_Q = {MON + "|held": 600, "class:haar:flat": 10, "class:hmm-germline:flat": 10, "class:haar:flat:two-arms": 5, "class:hmm-germline:flat:two-arms": 5,
       "class:haar:step:+0.000->-1.000": 3, "class:haar:step:-1.000->+0.000": 3, "class:haar:step:+0.000->+0.585": 3, "class:haar:step:+0.585->+0.000": 3,
       "class:haar:step:+0.000->+1.000": 3, "class:haar:step:+1.000->+0.000": 3,
       "class:hmm-germline:step:+0.000->-1.000": 3, "class:hmm-germline:step:-1.000->+0.000": 3,
